@@ -61,6 +61,7 @@ type State struct {
 	typed    map[int]bool
 	cutDone  map[int]bool
 	sidePending int
+	entropyReads []*Term
 	persist  []*Term // facts that survive a cut: entry assumptions and earlier cut assertions
 	steps    int
 	trace    []string
@@ -84,6 +85,7 @@ func (st *State) clone() *State {
 		cutDone:  make(map[int]bool, len(st.cutDone)),
 		persist:  st.persist[:len(st.persist):len(st.persist)],
 		sidePending: st.sidePending,
+		entropyReads: st.entropyReads[:len(st.entropyReads):len(st.entropyReads)],
 		steps:    st.steps,
 		trace:    st.trace[:len(st.trace):len(st.trace)],
 	}
@@ -180,6 +182,8 @@ type Engine struct {
 	flowOK        int
 	sideBatch     int
 	debugNames    map[ssa.Value]string
+	externCalls   map[string]bool
+	initMode      bool
 }
 
 func (en *Engine) newRegion(name string, t types.Type, kind string) *Region {
@@ -202,6 +206,20 @@ func (en *Engine) addObl(st *State, kind string, goal *Term, detail string, pos 
 			last.Alg = true
 		}
 		return last
+	}
+	// an implication whose premise is (the negation of) a fact of this path is resolved here
+	if goal.op == OImp {
+		prem := goal.args[0]
+		np := Not(prem)
+		for _, f := range st.facts {
+			if f == prem {
+				return en.addObl(st, kind, goal.args[1], detail, pos)
+			}
+			if f == np {
+				goal = True()
+				break
+			}
+		}
 	}
 	o := &Obligation{Name: en.oblName(kind), Kind: kind, Func: en.curFunc, Facts: st.facts[:len(st.facts):len(st.facts)], Goal: goal, Detail: detail, Pos: pos}
 	en.obls = append(en.obls, o)
@@ -448,6 +466,9 @@ func (en *Engine) sliceElemPtr(s SliceV, idx *Term) PtrV {
 func (en *Engine) globalCell(st *State, r *Region) Cell {
 	if c, ok := en.globalInit[r.global]; ok {
 		return c
+	}
+	if en.initMode {
+		return zeroCell(r.typ)
 	}
 	// unknown global contents: symbolic
 	var facts []*Term
